@@ -16,6 +16,7 @@ Decides:
  O leftover             run_subparser returns Ok only when nothing is left in scope.
  L lossless / B boundaries  typed values reach the conversion unaltered (PathBuf/OsString without to_str) and the byte-level
                         split of `-x=value` uses the real width of the first character (shared with C02).
+ T separator           the pre-consumed `--` marker is the item at the position it was tokenized into (shared with C09).
  R registry             the short-name registry behind `-abc` splitting is complete and wired straight (shared with C02).
 Does not decide: that the composition accepts exactly the declared language and attributes values correctly
 for every shape x vector (language equivalence over run-time data)."""
@@ -27,7 +28,7 @@ from dataflow import *
 LEVEL = 'other'
 EXPLANATION = __doc__
 ASSUMPTIONS = ['user closures and FromStr impls are total and pure', 'the witness forms of construct! cover the documented forms; other call shapes expand through the same macro arms']
-FLOORS = {'C.consumers': 22, 'P.primitives': 13, 'W.construct': 70, 'K3.consult': 120, 'K5.loops': 11, 'O.leftover': 2, 'F.parsecon': 3, 'R.registry': 14, 'L.lossless': 2, 'B.boundaries': 2}
+FLOORS = {'C.consumers': 22, 'P.primitives': 13, 'W.construct': 70, 'K3.consult': 120, 'K5.loops': 11, 'O.leftover': 2, 'F.parsecon': 3, 'R.registry': 14, 'L.lossless': 2, 'B.boundaries': 3, 'T.separator': 2}
 
 def run(ctx):
     cfgs = ['none', 'all'] if ctx.tier == 'quick' else ['none', 'all', 'ac', 'doc', 'bat']
@@ -45,7 +46,9 @@ def run(ctx):
         ctx.guard(parsecon, ctx, cfg, fs)
         ctx.guard(c12.walker_rules, ctx, cfg, fs, 'R.registry', {'collect_shorts': c12.WALKERS['collect_shorts']})
         ctx.guard(c08.keep_only, ctx, lambda: c02.lossless(ctx, cfg, fs), lambda o: 'parse_os_str' in o.key or o.key.startswith('value-path'), 'L.lossless')
-        ctx.guard(c08.keep_only, ctx, lambda: c02.boundaries(ctx, cfg, fs), lambda o: 'width-table' in o.key or 'cluster-test' in o.key, 'B.boundaries')
+        ctx.guard(c08.keep_only, ctx, lambda: c02.boundaries(ctx, cfg, fs), lambda o: 'width-table' in o.key or 'cluster-test' in o.key or 'byte-length' in o.key, 'B.boundaries')
+        import c09
+        ctx.guard(c08.keep_only, ctx, lambda: c09.tokenizer(ctx, cfg, fs), lambda o: 'marker-' in o.key, 'T.separator')
     ctx.guard(shapes.construct_shapes, ctx, 'W.construct')
 
 def parsecon(ctx, cfg, fs):
